@@ -1,4 +1,5 @@
-// zmc-race is built with -race and runs the bodies of C14's thread scenarios free-running (real goroutines, no
+// zmc-race is built with -race and runs the bodies of C14's thread scenarios (and, with a third argument c05, C05's
+// concurrent-elections scenario) free-running (real goroutines, no
 // controlled scheduler): the cooperative scheduler's hand-offs are happens-before edges and would blind the detector.
 // Exit status 66 = the race detector reported a data race (GORACE exitcode), 0 = none seen in this many iterations.
 package main
@@ -8,6 +9,7 @@ import (
 	"os"
 	"strconv"
 
+	"verifmc/props/c05"
 	"verifmc/props/c14"
 )
 
@@ -24,6 +26,20 @@ func main() {
 	}
 	os.MkdirAll(dir, 0o755)
 	defer os.RemoveAll(dir)
+	if len(os.Args) > 3 && os.Args[3] == "c05" {
+		cfi := 0
+		if len(os.Args) > 4 {
+			cfi, _ = strconv.Atoi(os.Args[4])
+		}
+		n, mismatch := c05.RacePass(dir, iters, cfi)
+		fmt.Printf("race-pass executions=%d\n", n)
+		if mismatch != "" {
+			fmt.Printf("SCHEDULE MISMATCH: %s\n", mismatch)
+			os.RemoveAll(dir)
+			os.Exit(67)
+		}
+		return
+	}
 	n := c14.RacePass(dir, iters)
 	fmt.Printf("race-pass executions=%d\n", n)
 }
